@@ -25,7 +25,7 @@ func Spec_calculateDiffsPerReferencePoint(
 	for ia, a := range alternatives {
 		refPointDiffs := make([]ReferencePointDifference, len(referencePoints))
 		for ir, r := range referencePoints {
-			refPointDiffs[ir] = calculateReferencePointDiffs(criteria, a, r, scaleRatios, loss, gain)
+			refPointDiffs[ir] = Spec_calculateReferencePointDiffs(criteria, a, r, scaleRatios, loss, gain)
 		}
 		referencePointsDiffs[ia] = ReferencePointsDifference{
 			Alternative:               a,
@@ -43,7 +43,7 @@ func Spec_calculateReferencePointDiffs(
 ) ReferencePointDifference {
 	referencePointsDiffs := make(model.Weights, len(*criteria))
 	for _, c := range *criteria {
-		difference := a.CriterionValue(&c) - r.CriterionValue(&c)
+		difference := a.Spec_CriterionValue(&c) - r.Spec_CriterionValue(&c)
 		if scaleRatio, ok := scaleRatios[c.Id]; ok {
 			scaledDif := difference * scaleRatio.Scale
 			var value float64
